@@ -116,7 +116,7 @@ def gen_case(seed, run, tier):
             if not shared or a == b:
                 continue
             key = rw.choice(shared)
-            op.update(b=b, key=key)
+            op.update(b=b, key=key, seq=rw.choice(["list", "list", "tuple", "generator", "iter"]))
             va, vb = na[key], nb_[key]
             from math import gcd
 
@@ -405,8 +405,11 @@ def execute(case):
                 continue
             allunit = abs(na[key]) == 1 and abs(nb_[key]) == 1
             sig = {"op": "eliminate", "all_unit_coeffs": allunit}
+            seqk = op.get("seq", "list")
+            operands = {"list": lambda: [A[0], B[0]], "tuple": lambda: (A[0], B[0]), "generator": lambda: (e_ for e_ in (A[0], B[0])),
+                        "iter": lambda: iter([A[0], B[0]])}[seqk]()
             try:
-                mult = Equilibrium.eliminate([A[0], B[0]], key)
+                mult = Equilibrium.eliminate(operands, key)
             except Exception as ex:
                 rec["outcome"] = "raise:" + core.exc_tag(ex)
                 sig["exc"] = core.exc_tag(ex)
